@@ -22,18 +22,37 @@ from sa import report as R                    # noqa: E402
 LEVELS = {"C19": "translation_validation"}
 
 
+def P(*a):
+    try:
+        print(*a)
+    except BrokenPipeError:
+        pass
+
+
 def run_property(pid, tier, root=None, overrides=None, quiet=False):
-    """returns (rep, ctx). raises AnalysisError on analysis failure."""
+    """returns (rep, ctx, error). error is None or the analysis-error text; obligations recorded before the
+    error are kept (a violation already found is reported even if a later rule could not be evaluated)."""
     ctx = Ctx(root, tier, overrides)
     rep = R.Report(pid, tier, LEVELS.get(pid, "other"))
     mod = importlib.import_module("sa.rules.%s" % pid.lower())
-    mod.run(ctx, rep)
-    return rep, ctx
+    err = None
+    try:
+        mod.run(ctx, rep)
+    except (AnalysisError, Unfoldable) as e:
+        err = str(e)
+    except Exception:
+        err = "internal error in the analyser: " + traceback.format_exc()
+    if err is None:
+        un = rep.unmet_floors()
+        if un:
+            err = "; ".join("%s: %s matched %d instance(s), below the hand-confirmed floor %d (the rule would pass "
+                            "vacuously)" % (f["rule"], f["what"], f["count"], f["floor"]) for f in un)
+    return rep, ctx, err
 
 
 def main(argv):
     if not argv or argv[0].startswith("-"):
-        print("usage: check <ID> [--tier quick|thorough] [--explain PATH]")
+        P("usage: check <ID> [--tier quick|thorough] [--explain PATH]")
         return 2
     pid = argv[0].upper()
     tier = os.environ.get("VERIF_TIER", "quick")
@@ -57,40 +76,41 @@ def main(argv):
     t0 = time.time()
     rep = None
     ctx = None
+    err = None
     try:
-        rep, ctx = run_property(pid, tier, root)
-        if tier == "thorough":
+        rep, ctx, err = run_property(pid, tier, root)
+        if tier == "thorough" and err is None:
             from sa import probes
             probes.run(pid, ctx, rep, root)
     except (AnalysisError, Unfoldable) as e:
-        print("ANALYSIS-ERROR property=%s %s" % (pid, e))
-        _error_evidence(pid, tier, seed, root, str(e), evpath, t0)
-        return 2
+        err = str(e)
     except Exception:
-        tb = traceback.format_exc()
-        print("ANALYSIS-ERROR property=%s internal error in the analyser:\n%s" % (pid, tb))
-        _error_evidence(pid, tier, seed, root, tb.splitlines()[-1], evpath, t0)
-        return 2
-
+        err = "internal error in the analyser:\n" + traceback.format_exc()
     known = R.load_known()
-    kn, new = R.classify(rep, known)
-    print("%s [%s] tree=%s: %d obligations over %d rules, %d discharged, %d known finding(s), %d violation(s); "
+    kn, new = R.classify(rep, known) if rep is not None else ([], [])
+    if err is not None and not new:
+        P("ANALYSIS-ERROR property=%s %s" % (pid, err))
+        _error_evidence(pid, tier, seed, root, err.splitlines()[-1], evpath, t0)
+        return 2
+    if err is not None:
+        P("note: analysis incomplete after the violation(s) below: %s" % err.splitlines()[0])
+    P("%s [%s] tree=%s: %d obligations over %d rules, %d discharged, %d known finding(s), %d violation(s); "
           "%d functions, %d CFG nodes" % (pid, tier, root, len(rep.obs), len(rep.rules),
                                           len(rep.obs) - len(rep.failed()), len(kn), len(new),
                                           len(rep.functions), rep.cfg_nodes))
     for fl in rep.floors:
-        print("  floor %-7s %-55s %d (>= %d)" % (fl["rule"], fl["what"], fl["count"], fl["floor"]))
+        P("  floor %-7s %-55s %d (>= %d)" % (fl["rule"], fl["what"], fl["count"], fl["floor"]))
     for o, k in kn:
-        print("KNOWN-FINDING: property=%s %s [%s] %s" % (pid, k.get("what", o.key), o.rule, o.loc or ""))
+        P("KNOWN-FINDING: property=%s %s [%s] %s" % (pid, k.get("what", o.key), o.rule, o.loc or ""))
     vpath = os.path.join(evdir, "%s.violations.json" % pid)
     if new:
         wit = []
         for o in new:
-            print("  %s  %s  %s\n      %s" % (o.loc or "?", o.rule, o.key, o.msg))
+            P("  %s  %s  %s\n      %s" % (o.loc or "?", o.rule, o.key, o.msg))
             if o.witness is not None and explain is None:
                 w = o.witness if isinstance(o.witness, list) else [o.witness]
                 for line in w[:25]:
-                    print("        | %s" % (line,))
+                    P("        | %s" % (line,))
             wit.append(o.as_dict())
         os.makedirs(evdir, exist_ok=True)
         with open(vpath, "w") as f:
@@ -101,12 +121,12 @@ def main(argv):
         except OSError:
             pass
     if explain:
-        print("--- explain %s (re-derived on the current tree) ---" % explain)
+        P("--- explain %s (re-derived on the current tree) ---" % explain)
         for o in rep.failed():
-            print(json.dumps(o.as_dict(), indent=1, default=str))
+            P(json.dumps(o.as_dict(), indent=1, default=str))
     R.write_evidence(rep, ctx.repo, seed, len(new), kn, path=evpath)
     if new:
-        print("VIOLATION property=%s replay=%s" % (pid, vpath))
+        P("VIOLATION property=%s replay=%s" % (pid, vpath))
         return 1
     return 0
 
